@@ -42,6 +42,7 @@ func init() {
 			{ID: "C20-R19", Title: "closers of sequences are expected after the newlines", Floor: 3, Run: closersAreExpectedAfterTheNewlines},
 			{ID: "C20-R20", Title: "block comments end at the first closer", Floor: 1, Run: blockCommentsEndAtTheFirstCloser},
 			{ID: "C20-R21", Title: "diagnostics store their text as given", Floor: 3, Run: diagnosticsStoreTheirTextAsGiven},
+			{ID: "C20-R22", Title: "compile errors carry a position", Floor: 10, Run: compileErrorsCarryAPosition},
 		},
 	})
 }
